@@ -49,6 +49,18 @@ CLAIMED = {
          "Model checking (RenderInline vs RenderParams on every enumerated statement) plus trace validation of the real code: Lex(to_string) must equal Lex(build.sql) with each placeholder replaced by the tokens of the backend literal of the bound value; build, build_any, build_collect, build_collect_any, to_string twice and build_collect(String) must agree; the statement must equal its clone after rendering; on SQLite both forms are executed over the fixture and must return the same rows and table contents.",
          "Trusted: TLC; EngineLex; SQLite 3.40.1. Numeric literals are compared as text.",
          "§5 C02"),
+ "C12": ("Conversion matrix of src/value.rs as a TLA+ decision table (Value.tla); TLC checks the round-trip / NULL / wrong-type laws on every (source type, target type, Option?, NULL?) cell and emits the cells; each cell is executed on the real crate with per-type payload pools, plus tuples of arity 1..12 and identity sweeps; TLC validates every recorded outcome against the table",
+         "Model checking of the conversion table (4160 cells over 32 source / 33 target types) and trace validation of the real From / ValueType::try_from / Option<T> / IntoValueTuple / FromValueTuple / as_null / dummy_value on every cell with concrete payloads (boundaries, float specials, chars across planes, feature types); exhaustive identity sweeps for 8/16-bit types, strided for 32-bit, f32 bit patterns and chars.",
+         "Trusted: TLC; payload identity is observed through Debug text / bit patterns in the harness — the TLA+ content is the matrix (see DESIGN §5 C12).",
+         "§5 C12"),
+ "C15": ("Two-register SelectStatement state machine in TLA+ (Take.tla over the Stmt.tla builder model: take, clone, clear/reset, calls on either register) explored by TLC with invariants and a non-interference action property; all histories replayed on the real builder with ==, renderings and clause-free reference statements recorded per step; validated by TLC",
+         "Model checking of all histories of <= 3 steps over 50 actions on two statement registers, plus trace validation of the real SelectStatement on those and on random long histories: after take the taken statement equals and renders as the statement before and the source equals a new one; a clone equals its source; a step on one register never changes the other's value or rendering; a clear operation yields exactly the statement rebuilt without that clause (== and token-equal rendering).",
+         "Trusted: TLC; the crate's PartialEq as the notion of statement equality. Schema-statement take() is not yet replayed.",
+         "§5 C15"),
+ "C18": ("hashable_value's hand-written Eq/Hash as an abstract relation over named payload classes (ValueEq.tla); TLC checks reflexivity, symmetry, transitivity, variant separation and Eq => equal hash key on all triples of the pool; every pair of the real pool is compared (==, Hash, HashSet, ValueTuple) and validated by TLC, symmetry/transitivity also on the recorded matrix",
+         "Model checking over all 79^3 triples of the abstract pool plus trace validation of the real Value::eq / Hash on the full 79 x 79 matrix (every variant incl. feature types, NULLs, +0/-0, NaN payloads, JSON key order, decimal scales, arrays and nested arrays).",
+         "Trusted: TLC; the payload-class table of ValueEq.tla; std's DefaultHasher as the fixed hasher.",
+         "§5 C18"),
 }
 NA = {
  "C20": "Type-level fact about Rust auto-traits decided only by rustc's trait solver; no state, transition or observable behaviour to model or trace (DESIGN.md §5 C20).",
